@@ -153,6 +153,15 @@ structure Cols where
   val : SqlVal
   deriving Repr, Inhabited
 
+/-- can `sqlite3` bind this parameter?  A str with a lone surrogate raises
+UnicodeEncodeError, an int outside int64 raises OverflowError. -/
+def bindable : SqlVal → Bool
+  | .text s => (utf8enc s).isSome
+  | .int i => inI64 i
+  | _ => true
+
+def Cols.bindable (c : Cols) : Bool := DC.Cache.bindable c.tag && DC.Cache.bindable c.val
+
 /-- `INSERT INTO Cache(…)` + count/size insert triggers; rowid = max(rowid)+1. -/
 def insRow (s : Cache) (k : SqlVal) (raw : Bool) (now : Int) (c : Cols) : Cache :=
   let r : Row := { rowid := maxRowid s.rows + 1, key := k, raw := raw, storeT := now,
@@ -375,8 +384,12 @@ def set (s : Cache) (E : Externals) (now : Int) (k v : PyVal) (ttl : Option Int)
   | .ok (s, c) =>
     let c := { c with expT := ttl.map (now + ·), tag := tag }
     s.transact (fresh := c.file) fun s =>
+      if !bindable dbk then { s := s.log (.sqlFail "selKey"), out := .exc "UnicodeEncodeError", ok := false } else
       let old := s.selKey dbk raw
       let s := s.logSql "selKey"
+      if !c.bindable then
+        { s := s.log (.sqlFail (if old.isSome then "updRow" else "insRow")), out := .exc "UnicodeEncodeError", ok := false }
+      else
       let (s, cl) := match old with
         | some r => (s.updRow r.rowid now c, [r.file])
         | none => (s.insRow dbk raw now c, [])
@@ -403,16 +416,22 @@ def add (s : Cache) (E : Externals) (now : Int) (k v : PyVal) (ttl : Option Int)
   | .ok (s, c) =>
     let c := { c with expT := ttl.map (now + ·), tag := tag }
     s.transact (fresh := c.file) fun s =>
+      if !bindable dbk then { s := s.log (.sqlFail "selKey"), out := .exc "UnicodeEncodeError", ok := false } else
       let old := s.selKey dbk raw
       let s := s.logSql "selKey"
       match old with
       | some r =>
         if live now r then { s := s, out := .bool false, cleanup := [c.file] }
+        else if !c.bindable then
+          { s := s.log (.sqlFail "updRow"), out := .exc "UnicodeEncodeError", ok := false }
         else
           let s := s.updRow r.rowid now c
           let (s, cl2) := s.cullW now
           { s := s, out := .bool true, cleanup := [r.file] ++ cl2 }
       | none =>
+        if !c.bindable then
+          { s := s.log (.sqlFail "insRow"), out := .exc "UnicodeEncodeError", ok := false }
+        else
         let s := s.insRow dbk raw now c
         let (s, cl2) := s.cullW now
         { s := s, out := .bool true, cleanup := cl2 }
@@ -603,6 +622,8 @@ def push (s : Cache) (E : Externals) (now : Int) (v : PyVal) (prefix_ : Option S
         if (s.selKey dbk true).isSome then
           -- UNIQUE index Cache_key_raw: an ordinary key sits just outside the queue range
           { s := s.log (.sqlFail "insRow"), out := .exc "IntegrityError", ok := false }
+        else if !c.bindable || !bindable dbk then
+          { s := s.log (.sqlFail "insRow"), out := .exc "UnicodeEncodeError", ok := false }
         else
         let s := s.insRow dbk true now c
         let (s, cl) := s.cullW now
